@@ -43,6 +43,11 @@ COMPONENTS = {
         "write buffer wrapper that lets a torn length be chosen for a cache file opened for writing",
     ],
 }
+MEASURES = {
+    "distinct_schedules": "distinct sequences of (process, seam, file) taken at scheduler steps where more than one process was runnable",
+    "distinct_states": "distinct abstract states after a scheduler step: (state class of each cache file: missing / empty / full / other) x (flavour and parked seam of every live process); at most 3000 recorded per run",
+    "sim_time_s": "simulated time: 1 ms per scheduler step plus lock-poll sleeps; the clock jumps when nothing is runnable",
+}
 ASSUMPTIONS = [
     "pre-emption and crash points are the cache-folder system calls of each process (nothing else of a process is visible to another)",
     "reference answers come from a process of the same tree that read no cache file (private empty cache folder), so only cache-induced differences are flagged",
